@@ -213,6 +213,8 @@ mod framework;
 mod machine;
 pub mod state;
 pub mod time;
+#[cfg(feature = "verif")]
+pub mod verif;
 
 pub use crate::action::{Timer, TriggerAction};
 pub use crate::error::Error;
